@@ -1,7 +1,229 @@
-(* C11 -- placeholder while the proofs are being developed; replaced by the real statements. *)
-From Coq Require Import String List.
-From GY Require Import Model.Identity.
+(* C11 -- Each identity lists exactly its transitive derivations, once, in fixed order.
+   Only statements, closed by [exact], and non-vacuity examples.
+
+   [resolve_identities om o2 o3 sc] (Model/Identity.v) is the model of Modules.resolveIdentities on schema sc:
+   om, o2, o3 are the iteration orders of the three loops over Go maps (ms.Modules, and the identity
+   dictionary twice).  Its result r holds the dictionary [r_dict r], the Values list of every identity
+   [r_values r key] and the errors [r_errors r].  The third loop is the real one: the closure of an identity
+   is computed from whatever Values lists it meets, some already replaced by their closure and some still
+   holding direct children only, depending on o3.
+
+   [derived], [resolves], [declared], [consistent], [links_ok], [all_resolve], [acyclic], [sorted_keys],
+   [is_oracle] are in Spec/C11.v.  The graph is read off the dictionary, g = dict_get (r_dict r);
+   C11_dictionary says which function of the schema that is. *)
+From Coq Require Import Ascii String List Bool Arith Relations Permutation.
+From GY Require Import Model.Identity Spec.C11 Proofs.IdentityProofs.
 Import ListNotations.
 Local Open Scope string_scope.
-Theorem C11_stub : append_if_not_in ["a"] "a" = ["a"].
-Proof. reflexivity. Qed.
+Local Open Scope list_scope.
+
+(* ------------------------------------------------------------------ termination *)
+
+(* T0: for every schema (cyclic derivations, dangling bases, anything) and every iteration order, the
+   resolver terminates: the fuel given to addChildren, number of identities + 1, is never exhausted. *)
+Theorem C11_terminates : forall sc om o2 o3, is_oracle o2 -> is_oracle o3 ->
+  exists r, resolve_identities om o2 o3 sc = Some r.
+Proof. exact resolve_total. Qed.
+
+(* the reason: over any Values table whose entries are identities of the dictionary, addChildren needs
+   no more nesting than there are identities not yet collected -- cycles included *)
+Theorem C11_closure_fuel : forall (V : vals) (ks : list key),
+  (forall x c, In c (V x) -> In c ks) ->
+  forall f r ids, NoDup ids -> incl ids ks -> In r ks -> length ks - length ids < f ->
+  exists ids', add_children f V r ids = Some ids'.
+Proof. exact fuel_ok. Qed.
+
+(* and what the loop "for j in Values(i): new = addChildren(j, new)" returns, for any table, cyclic or
+   not: every identity reachable from i through one or more "is in Values of" steps, each once *)
+Theorem C11_closure_exact : forall f (V : vals) i nv, close f V i = Some nv ->
+  NoDup nv /\ forall x, In x nv <-> clos_trans key (fun a c => In c (V a)) i x.
+Proof. exact close_spec. Qed.
+
+(* ------------------------------------------------------------------ the Values lists *)
+
+(* T1 (a): no identity is listed twice *)
+Theorem C11_no_duplicates : forall sc om o2 o3 r, is_oracle o2 -> is_oracle o3 ->
+  resolve_identities om o2 o3 sc = Some r -> forall b, NoDup (r_values r b).
+Proof. exact values_nodup. Qed.
+
+(* T1 (b): Values b is exactly the set of identities that reach b through one or more base statements *)
+Theorem C11_exact : forall sc om o2 o3 r, is_oracle o2 -> is_oracle o3 ->
+  resolve_identities om o2 o3 sc = Some r ->
+  forall b i, In i (r_values r b) <-> derived sc (dict_get (r_dict r)) b i.
+Proof. exact values_exact. Qed.
+
+(* T1 (c): never the identity itself, unless it is derived from itself (which T3 reports) *)
+Theorem C11_never_itself : forall sc om o2 o3 r, is_oracle o2 -> is_oracle o3 ->
+  resolve_identities om o2 o3 sc = Some r ->
+  forall b, ~ derived sc (dict_get (r_dict r)) b b -> ~ In b (r_values r b).
+Proof. exact values_not_self. Qed.
+
+Theorem C11_lists_identities : forall sc om o2 o3 r, is_oracle o2 -> is_oracle o3 ->
+  resolve_identities om o2 o3 sc = Some r ->
+  forall b i, In i (r_values r b) -> defined (dict_get (r_dict r)) i /\ defined (dict_get (r_dict r)) b.
+Proof. exact values_are_identities. Qed.
+
+(* T1 (d): strictly increasing by (identity name, module-qualified name), bytewise *)
+Theorem C11_sorted : forall sc om o2 o3 r, is_oracle o2 -> is_oracle o3 ->
+  resolve_identities om o2 o3 sc = Some r ->
+  forall b, sorted_keys (dict_get (r_dict r)) (r_values r b).
+Proof. exact values_sorted. Qed.
+
+(* a strictly increasing list is determined by its set: (b) and (d) fix the list *)
+Theorem C11_sorted_unique : forall g l1 l2, sorted_keys g l1 -> sorted_keys g l2 ->
+  (forall x, In x l1 <-> In x l2) -> l1 = l2.
+Proof. exact strict_sorted_unique. Qed.
+
+(* T2: the dictionary holds exactly the identity statements of the loaded modules and of the submodules
+   reachable from them through include statements, under the owner's name -- whatever order ms.Modules
+   is walked in (for a schema in which no two statements compete for a key) *)
+Theorem C11_dictionary : forall sc om o2 o3 r, is_oracle o2 -> is_oracle o3 ->
+  resolve_identities om o2 o3 sc = Some r -> is_oracle om -> consistent sc ->
+  forall k e, dict_get (r_dict r) k = Some e <-> declared sc k e.
+Proof. exact dictionary_spec. Qed.
+
+(* without the consistency assumption: everything in the dictionary is a declared identity, and every
+   declared identity's key is in the dictionary *)
+Theorem C11_dictionary_sound : forall sc om o2 o3 r, is_oracle o2 -> is_oracle o3 ->
+  resolve_identities om o2 o3 sc = Some r -> is_oracle om ->
+  forall k e, dict_get (r_dict r) k = Some e -> declared sc k e.
+Proof. exact dictionary_sound. Qed.
+
+Theorem C11_dictionary_complete : forall sc om o2 o3 r, is_oracle o2 -> is_oracle o3 ->
+  resolve_identities om o2 o3 sc = Some r -> is_oracle om ->
+  forall k e, declared sc k e -> defined (dict_get (r_dict r)) k.
+Proof. exact dictionary_complete. Qed.
+
+(* wholeModule of a loaded module: the module and everything reachable through resolved includes
+   (nested includes are hoisted) *)
+Theorem C11_whole_module : forall sc md, loaded sc md ->
+  forall m, In m (whole_module sc md) <-> part_of sc md m.
+Proof. exact whole_module_spec. Qed.
+
+(* T1 (d'): the order -- the whole result -- is a function of the schema alone: any two choices of the
+   three map iteration orders give the same dictionary, the same Values list for every identity, and
+   agree on whether an error is reported *)
+Theorem C11_schema_alone : forall sc om o2 o3 om' o2' o3' r r',
+  is_oracle om -> is_oracle o2 -> is_oracle o3 -> is_oracle om' -> is_oracle o2' -> is_oracle o3' ->
+  consistent sc ->
+  resolve_identities om o2 o3 sc = Some r -> resolve_identities om' o2' o3' sc = Some r' ->
+  (forall k, dict_get (r_dict r) k = dict_get (r_dict r') k) /\
+  (forall b, r_values r b = r_values r' b) /\
+  (r_errors r = [] <-> r_errors r' = []).
+Proof. exact oracle_independent. Qed.
+
+(* ------------------------------------------------------------------ identityref *)
+
+(* T4: an identityref type statement inside (sub)module n points at the identity its base argument
+   names there; it keeps that identity, so the values it sees are r_values r b: by C11_exact,
+   C11_sorted the same list *)
+Theorem C11_identityref : forall sc r sub n s b,
+  identityref_base sc (r_dict r) sub n s = Some b <->
+  exists md, find_mod sc sub n = Some md /\ resolves sc (dict_get (r_dict r)) md s b.
+Proof. exact identityref_spec. Qed.
+
+(* ------------------------------------------------------------------ errors *)
+
+(* T3 (e): no error is reported exactly when every followed include/import names something loaded,
+   every base resolves, and no identity is derived from itself *)
+Theorem C11_no_error_iff : forall sc om o2 o3 r, is_oracle o2 -> is_oracle o3 ->
+  resolve_identities om o2 o3 sc = Some r ->
+  (r_errors r = [] <->
+   links_ok sc /\ all_resolve sc (dict_get (r_dict r)) /\ acyclic sc (dict_get (r_dict r))).
+Proof. exact errors_none_iff. Qed.
+
+Theorem C11_undefined_base_is_error : forall sc om o2 o3 r, is_oracle o2 -> is_oracle o3 ->
+  resolve_identities om o2 o3 sc = Some r ->
+  forall i md id s, dict_get (r_dict r) i = Some (md, id) -> In s (i_bases id) ->
+    (~ exists b, resolves sc (dict_get (r_dict r)) md s b) ->
+    In (ErrBase i s) (r_errors r).
+Proof. exact error_undefined_base. Qed.
+
+Theorem C11_cycle_is_error : forall sc om o2 o3 r, is_oracle o2 -> is_oracle o3 ->
+  resolve_identities om o2 o3 sc = Some r ->
+  forall i, derived sc (dict_get (r_dict r)) i i -> In (ErrCycle i) (r_errors r).
+Proof. exact error_cycle. Qed.
+
+Theorem C11_missing_link_is_error : forall sc om o2 o3 r, is_oracle o2 -> is_oracle o3 ->
+  resolve_identities om o2 o3 sc = Some r ->
+  forall m n, visible sc m ->
+    (In n (m_includes m) /\ find_mod sc true n = None) \/
+    (exists p, In (p, n) (m_imports m) /\ find_mod sc false n = None) ->
+    In (ErrLink (m_name m) n) (r_errors r).
+Proof. exact error_missing_link. Qed.
+
+(* ------------------------------------------------------------------ non-vacuity *)
+
+Example C11_oracle_id : is_oracle ord_id.
+Proof. exact ord_id_oracle. Qed.
+Example C11_oracle_rev : is_oracle ord_rev.
+Proof. exact ord_rev_oracle. Qed.
+
+(* module a { prefix pa; include s1; identity top; identity l { base top; } }
+   submodule s1 { belongs-to a { prefix pa; } include s2; identity r { base pa:top; } }
+   submodule s2 { belongs-to a { prefix zz; } identity bot { base zz:l; base r; } }      (nested include)
+   module b { prefix pb; import a { prefix x; } identity bot { base x:bot; } identity l { base x:top; } } *)
+Definition ex_a := Module "a" false "pa" "" [] ["s1"] [Ident "top" []; Ident "l" ["top"]].
+Definition ex_s1 := Module "s1" true "pa" "a" [] ["s2"] [Ident "r" ["pa:top"]].
+Definition ex_s2 := Module "s2" true "zz" "a" [] [] [Ident "bot" ["zz:l"; "r"]].
+Definition ex_b := Module "b" false "pb" "" [("x", "a")] [] [Ident "bot" ["x:bot"]; Ident "l" ["x:top"]].
+Definition ex_schema : schema := [ex_s2; ex_b; ex_a; ex_s1].
+
+Definition vals_of (o : option result) (ks : list key) : option (list (list key) * list err) :=
+  match o with Some r => Some (map (r_values r) ks, r_errors r) | None => None end.
+
+(* a diamond (bot -> l, r -> top), equal names in two modules, a nested include; two different sets of
+   iteration orders *)
+Example C11_ex_values :
+  vals_of (resolve_identities ord_id ord_id ord_id ex_schema) ["a:top"; "a:l"; "a:r"; "a:bot"; "b:bot"; "b:l"] =
+  Some ([["a:bot"; "b:bot"; "a:l"; "b:l"; "a:r"]; ["a:bot"; "b:bot"]; ["a:bot"; "b:bot"]; ["b:bot"]; []; []], []).
+Proof. vm_compute. reflexivity. Qed.
+
+Example C11_ex_values_other_order :
+  vals_of (resolve_identities ord_rev ord_rev (oracle 2) ex_schema) ["a:top"; "a:l"; "a:r"; "a:bot"; "b:bot"; "b:l"] =
+  Some ([["a:bot"; "b:bot"; "a:l"; "b:l"; "a:r"]; ["a:bot"; "b:bot"]; ["a:bot"; "b:bot"]; ["b:bot"]; []; []], []).
+Proof. vm_compute. reflexivity. Qed.
+
+(* the hypothesis of C11_schema_alone / C11_dictionary is satisfiable *)
+Example C11_ex_consistent : consistent ex_schema.
+Proof.
+  apply consistent_nodup. vm_compute.
+  repeat (constructor; [simpl; intuition discriminate|]). constructor.
+Qed.
+
+Example C11_ex_identityref :
+  match resolve_identities ord_id ord_id ord_id ex_schema with
+  | Some r => identityref_base ex_schema (r_dict r) false "b" "x:top" = Some "a:top" /\
+              identityref_base ex_schema (r_dict r) true "s2" "r" = Some "a:r" /\
+              identityref_base ex_schema (r_dict r) false "b" "top" = None
+  | None => False
+  end.
+Proof. vm_compute. repeat split. Qed.
+
+(* derivation cycles and an undefined base are reported (and the resolver terminates on them) *)
+Example C11_ex_self :
+  vals_of (resolve_identities ord_id ord_id ord_id [Module "a" false "p" "" [] [] [Ident "x" ["x"]]]) ["a:x"] =
+  Some ([["a:x"]], [ErrCycle "a:x"]).
+Proof. vm_compute. reflexivity. Qed.
+
+Example C11_ex_cycle :
+  vals_of (resolve_identities ord_id ord_id ord_rev
+             [Module "a" false "p" "" [] [] [Ident "x" ["y"]; Ident "y" ["p:x"]; Ident "z" ["x"]]])
+          ["a:x"; "a:y"; "a:z"] =
+  Some ([["a:x"; "a:y"; "a:z"]; ["a:x"; "a:y"; "a:z"]; []], [ErrCycle "a:y"; ErrCycle "a:x"]).
+Proof. vm_compute. reflexivity. Qed.
+
+Example C11_ex_dangling :
+  vals_of (resolve_identities ord_id ord_id ord_id
+             [Module "a" false "p" "" [("q", "b")] [] [Ident "x" ["q:nosuch"; "zz:x"; "y"]];
+              Module "b" false "p" "" [] [] [Ident "x" []]]) ["a:x"; "b:x"] =
+  Some ([[]; []], [ErrBase "a:x" "q:nosuch"; ErrBase "a:x" "zz:x"; ErrBase "a:x" "y"]).
+Proof. vm_compute. reflexivity. Qed.
+
+(* an identity of a submodule nobody includes is not in the dictionary: a base naming it is undefined *)
+Example C11_ex_not_included :
+  vals_of (resolve_identities ord_id ord_id ord_id
+             [Module "a" false "p" "" [] [] [Ident "x" ["y"]];
+              Module "s" true "p" "a" [] [] [Ident "y" []]]) ["a:x"; "a:y"] =
+  Some ([[]; []], [ErrBase "a:x" "y"]).
+Proof. vm_compute. reflexivity. Qed.
